@@ -687,9 +687,12 @@ func (r *rewriter) expr(e ast.Expr) ast.Expr {
 				case "close":
 					r.usedSched = true
 					return schedCall("Close", r.expr(x.Args[0]))
-				case "make":
-					if _, isCh := x.Args[0].(*ast.ChanType); isCh && len(x.Args) > 1 {
-						fatal("%s: buffered channels are not modelled by engine S", r.pos(e))
+				case "len":
+					if tp := r.info.TypeOf(x.Args[0]); tp != nil {
+						if _, isCh := tp.Underlying().(*types.Chan); isCh {
+							r.usedSched = true
+							return schedCall("Len", r.expr(x.Args[0]))
+						}
 					}
 				}
 			}
